@@ -66,52 +66,40 @@ theorem applyKwargs_key (m : Morsel) (kws : List (Str × KwVal)) : (applyKwargs 
     · rfl
 
 /-- the jar after `set_cookie`: entries under other names untouched and in order, then the morsel this
-call builds on its own -/
+call builds on its own; a call that raises leaves the jar as it was -/
 theorem setCookie_eq (j : Jar) (a : CookieArgs) :
     setCookie j a = (match setCookie [] a with
       | ([m], e) => (jarErase j m.key ++ [m], e)
       | (_, e) => (j, e)) := by
   unfold setCookie
-  cases nativeStr a.name with
+  cases buildMorsel a with
   | error e => rfl
-  | ok name =>
-    cases nativeStr a.value with
-    | error e => rfl
-    | ok value =>
-      simp only
-      by_cases h1 : hasCtlOrSpace value = true
-      · simp [h1]
-      · by_cases h2 : (hasBadAttrChar name || optBad a.domain || optBad a.path || optBad a.samesite) = true
-        · simp [h1, h2]
-        · by_cases h3 : a.kwargs.any kwBad = true
-          · simp [h1, h2, h3]
-          · by_cases h4 : (isReserved name || !isLegalKey name) = true
-            · simp [h1, h2, h3, h4]
-            · simp only [h1, h2, h3, h4, Bool.false_eq_true, ↓reduceIte, jarErase, List.filter_nil, List.nil_append,
-                applyKwargs_key, baseMorsel]
+  | ok m => simp [jarErase]
 
 /-- on the empty jar a returning call leaves exactly one morsel -/
 theorem setCookie_nil_ok (a : CookieArgs) (h : (setCookie [] a).2 = none) : ∃ m, setCookie [] a = ([m], none) := by
   unfold setCookie at h ⊢
-  cases hn : nativeStr a.name with
-  | error e => rw [hn] at h; cases h
-  | ok name =>
-    rw [hn] at h
-    cases hv : nativeStr a.value with
-    | error e => rw [hv] at h; cases h
-    | ok value =>
-      rw [hv] at h
-      simp only at h ⊢
-      by_cases h1 : hasCtlOrSpace value = true
-      · simp [h1] at h
-      · by_cases h2 : (hasBadAttrChar name || optBad a.domain || optBad a.path || optBad a.samesite) = true
-        · simp [h1, h2] at h
-        · by_cases h3 : a.kwargs.any kwBad = true
-          · simp [h1, h2, h3] at h
-          · by_cases h4 : (isReserved name || !isLegalKey name) = true
-            · simp [h1, h2, h3, h4] at h
-            · simp only [h1, h2, h3, h4, Bool.false_eq_true, ↓reduceIte] at h ⊢
-              exact ⟨(applyKwargs (baseMorsel name value a) a.kwargs).1, by rw [h]; simp [jarErase]⟩
+  cases hb : buildMorsel a with
+  | error e => rw [hb] at h; cases h
+  | ok m => exact ⟨m, by simp [jarErase]⟩
+
+/-- a returning call, on any jar, is a successful `buildMorsel` -/
+theorem setCookie_ok_iff (j j' : Jar) (a : CookieArgs) :
+    setCookie j a = (j', none) ↔ ∃ m, buildMorsel a = .ok m ∧ j' = jarErase j m.key ++ [m] := by
+  unfold setCookie
+  cases hb : buildMorsel a with
+  | error e => simp
+  | ok m =>
+    simp only [Prod.mk.injEq, and_true, Except.ok.injEq, exists_eq_left']
+    exact eq_comm
+
+/-- a call that raises leaves the jar untouched -/
+theorem setCookie_raise_jar (j : Jar) (a : CookieArgs) (e : Err) (h : (setCookie j a).2 = some e) :
+    (setCookie j a).1 = j := by
+  unfold setCookie at h ⊢
+  cases hb : buildMorsel a with
+  | error e => rfl
+  | ok m => rw [hb] at h; cases h
 
 theorem jarErase_no_key (j : Jar) (k : Str) : ∀ x ∈ jarErase j k, x.key ≠ k := by
   intro x hx
